@@ -5,15 +5,16 @@ set -u
 export GOFLAGS=-mod=mod GOPROXY=off GOSUMDB=off GOTOOLCHAIN=local
 export VERIF_REPO=${VERIF_REPO:-/repo}
 V=/verif
+O=${VERIF_OUTDIR:-$V/out}
 GO=/opt/veriftools/go1.26.8/bin/go
-mkdir -p $V/out/bin $V/out/replays $V/out/logs $V/out/gocache
+mkdir -p $O/bin $O/replays $O/logs $V/out/gocache
 export GOCACHE=${GOCACHE:-$V/out/gocache}
 python3 $V/tools/gen_gomod.py || exit 2
 OVL=$(python3 $V/tools/gen_overlay.py) || exit 2
 cd $V/sim || exit 2
 RACE=${VERIF_RACE:+-race}
-OUT=$V/out/bin/harness${VERIF_RACE:+-race}.test
-$GO test -c $RACE -overlay "$OVL" -vet=off -o "$OUT" \
+OUT=$O/bin/harness${VERIF_RACE:+-race}.test
+$GO test -c $RACE -modfile=$O/gomod/go.mod -overlay "$OVL" -vet=off -o "$OUT" \
   -ldflags "-X github.com/crossplane/crossplane/internal/version.version=v1.19.0" ./harness 2>&1 | tail -40
 if [ ${PIPESTATUS[0]} -ne 0 ]; then echo "BUILD FAILED"; exit 2; fi
 echo "$OUT"
